@@ -469,6 +469,15 @@ func ExpandTemplate(parts []gen.TmplPart, ts int64, line string, labels map[stri
 			}
 		case "trim":
 			sb.WriteString(strings.TrimSpace(labels[t.A]))
+		case "unix_of_label":
+			v := labels[t.A]
+			if len(v) != 10 {
+				return "", true
+			}
+			if _, err := strconv.ParseInt(v, 10, 64); err != nil {
+				return "", true
+			}
+			sb.WriteString(strings.TrimLeft(v, "+"))
 		case "fail_unixToTime", "fail_regex":
 			return "", true
 		}
